@@ -11,107 +11,110 @@ import (
 
 func pt() { vrt.Yield("atomic") }
 
+// pto: the scheduling point, then the happens-before edges of a sequentially consistent atomic operation
+func pto(obj any) { vrt.Yield("atomic"); vrt.AcqRel(obj) }
+
 type Value = atomic.Value
 type Pointer[T any] struct{ v atomic.Pointer[T] }
 
-func (p *Pointer[T]) Load() *T                    { pt(); return p.v.Load() }
-func (p *Pointer[T]) Store(x *T)                  { pt(); p.v.Store(x) }
-func (p *Pointer[T]) Swap(x *T) *T                { pt(); return p.v.Swap(x) }
-func (p *Pointer[T]) CompareAndSwap(o, n *T) bool { pt(); return p.v.CompareAndSwap(o, n) }
+func (p *Pointer[T]) Load() *T                    { pto(p); return p.v.Load() }
+func (p *Pointer[T]) Store(x *T)                  { pto(p); p.v.Store(x) }
+func (p *Pointer[T]) Swap(x *T) *T                { pto(p); return p.v.Swap(x) }
+func (p *Pointer[T]) CompareAndSwap(o, n *T) bool { pto(p); return p.v.CompareAndSwap(o, n) }
 
 type Bool struct{ v atomic.Bool }
 
-func (b *Bool) Load() bool                    { pt(); return b.v.Load() }
-func (b *Bool) Store(x bool)                  { pt(); b.v.Store(x) }
-func (b *Bool) Swap(x bool) bool              { pt(); return b.v.Swap(x) }
-func (b *Bool) CompareAndSwap(o, n bool) bool { pt(); return b.v.CompareAndSwap(o, n) }
+func (b *Bool) Load() bool                    { pto(b); return b.v.Load() }
+func (b *Bool) Store(x bool)                  { pto(b); b.v.Store(x) }
+func (b *Bool) Swap(x bool) bool              { pto(b); return b.v.Swap(x) }
+func (b *Bool) CompareAndSwap(o, n bool) bool { pto(b); return b.v.CompareAndSwap(o, n) }
 
-func LoadPointer(a *unsafe.Pointer) unsafe.Pointer     { pt(); return atomic.LoadPointer(a) }
-func StorePointer(a *unsafe.Pointer, v unsafe.Pointer) { pt(); atomic.StorePointer(a, v) }
+func LoadPointer(a *unsafe.Pointer) unsafe.Pointer     { pto(a); return atomic.LoadPointer(a) }
+func StorePointer(a *unsafe.Pointer, v unsafe.Pointer) { pto(a); atomic.StorePointer(a, v) }
 func SwapPointer(a *unsafe.Pointer, v unsafe.Pointer) unsafe.Pointer {
-	pt()
+	pto(a)
 	return atomic.SwapPointer(a, v)
 }
 func CompareAndSwapPointer(a *unsafe.Pointer, o, n unsafe.Pointer) bool {
-	pt()
+	pto(a)
 	return atomic.CompareAndSwapPointer(a, o, n)
 }
 
 type Int32 struct{ v atomic.Int32 }
 
-func (x *Int32) Load() int32                    { pt(); return x.v.Load() }
-func (x *Int32) Store(v int32)                  { pt(); x.v.Store(v) }
-func (x *Int32) Swap(v int32) int32             { pt(); return x.v.Swap(v) }
-func (x *Int32) CompareAndSwap(o, n int32) bool { pt(); return x.v.CompareAndSwap(o, n) }
-func (x *Int32) Add(d int32) int32              { pt(); return x.v.Add(d) }
+func (x *Int32) Load() int32                    { pto(x); return x.v.Load() }
+func (x *Int32) Store(v int32)                  { pto(x); x.v.Store(v) }
+func (x *Int32) Swap(v int32) int32             { pto(x); return x.v.Swap(v) }
+func (x *Int32) CompareAndSwap(o, n int32) bool { pto(x); return x.v.CompareAndSwap(o, n) }
+func (x *Int32) Add(d int32) int32              { pto(x); return x.v.Add(d) }
 
-func LoadInt32(a *int32) int32                      { pt(); return atomic.LoadInt32(a) }
-func StoreInt32(a *int32, v int32)                  { pt(); atomic.StoreInt32(a, v) }
-func SwapInt32(a *int32, v int32) int32             { pt(); return atomic.SwapInt32(a, v) }
-func AddInt32(a *int32, d int32) int32              { pt(); return atomic.AddInt32(a, d) }
-func CompareAndSwapInt32(a *int32, o, n int32) bool { pt(); return atomic.CompareAndSwapInt32(a, o, n) }
+func LoadInt32(a *int32) int32                      { pto(a); return atomic.LoadInt32(a) }
+func StoreInt32(a *int32, v int32)                  { pto(a); atomic.StoreInt32(a, v) }
+func SwapInt32(a *int32, v int32) int32             { pto(a); return atomic.SwapInt32(a, v) }
+func AddInt32(a *int32, d int32) int32              { pto(a); return atomic.AddInt32(a, d) }
+func CompareAndSwapInt32(a *int32, o, n int32) bool { pto(a); return atomic.CompareAndSwapInt32(a, o, n) }
 
 type Int64 struct{ v atomic.Int64 }
 
-func (x *Int64) Load() int64                    { pt(); return x.v.Load() }
-func (x *Int64) Store(v int64)                  { pt(); x.v.Store(v) }
-func (x *Int64) Swap(v int64) int64             { pt(); return x.v.Swap(v) }
-func (x *Int64) CompareAndSwap(o, n int64) bool { pt(); return x.v.CompareAndSwap(o, n) }
-func (x *Int64) Add(d int64) int64              { pt(); return x.v.Add(d) }
+func (x *Int64) Load() int64                    { pto(x); return x.v.Load() }
+func (x *Int64) Store(v int64)                  { pto(x); x.v.Store(v) }
+func (x *Int64) Swap(v int64) int64             { pto(x); return x.v.Swap(v) }
+func (x *Int64) CompareAndSwap(o, n int64) bool { pto(x); return x.v.CompareAndSwap(o, n) }
+func (x *Int64) Add(d int64) int64              { pto(x); return x.v.Add(d) }
 
-func LoadInt64(a *int64) int64                      { pt(); return atomic.LoadInt64(a) }
-func StoreInt64(a *int64, v int64)                  { pt(); atomic.StoreInt64(a, v) }
-func SwapInt64(a *int64, v int64) int64             { pt(); return atomic.SwapInt64(a, v) }
-func AddInt64(a *int64, d int64) int64              { pt(); return atomic.AddInt64(a, d) }
-func CompareAndSwapInt64(a *int64, o, n int64) bool { pt(); return atomic.CompareAndSwapInt64(a, o, n) }
+func LoadInt64(a *int64) int64                      { pto(a); return atomic.LoadInt64(a) }
+func StoreInt64(a *int64, v int64)                  { pto(a); atomic.StoreInt64(a, v) }
+func SwapInt64(a *int64, v int64) int64             { pto(a); return atomic.SwapInt64(a, v) }
+func AddInt64(a *int64, d int64) int64              { pto(a); return atomic.AddInt64(a, d) }
+func CompareAndSwapInt64(a *int64, o, n int64) bool { pto(a); return atomic.CompareAndSwapInt64(a, o, n) }
 
 type Uint32 struct{ v atomic.Uint32 }
 
-func (x *Uint32) Load() uint32                    { pt(); return x.v.Load() }
-func (x *Uint32) Store(v uint32)                  { pt(); x.v.Store(v) }
-func (x *Uint32) Swap(v uint32) uint32            { pt(); return x.v.Swap(v) }
-func (x *Uint32) CompareAndSwap(o, n uint32) bool { pt(); return x.v.CompareAndSwap(o, n) }
-func (x *Uint32) Add(d uint32) uint32             { pt(); return x.v.Add(d) }
+func (x *Uint32) Load() uint32                    { pto(x); return x.v.Load() }
+func (x *Uint32) Store(v uint32)                  { pto(x); x.v.Store(v) }
+func (x *Uint32) Swap(v uint32) uint32            { pto(x); return x.v.Swap(v) }
+func (x *Uint32) CompareAndSwap(o, n uint32) bool { pto(x); return x.v.CompareAndSwap(o, n) }
+func (x *Uint32) Add(d uint32) uint32             { pto(x); return x.v.Add(d) }
 
-func LoadUint32(a *uint32) uint32           { pt(); return atomic.LoadUint32(a) }
-func StoreUint32(a *uint32, v uint32)       { pt(); atomic.StoreUint32(a, v) }
-func SwapUint32(a *uint32, v uint32) uint32 { pt(); return atomic.SwapUint32(a, v) }
-func AddUint32(a *uint32, d uint32) uint32  { pt(); return atomic.AddUint32(a, d) }
+func LoadUint32(a *uint32) uint32           { pto(a); return atomic.LoadUint32(a) }
+func StoreUint32(a *uint32, v uint32)       { pto(a); atomic.StoreUint32(a, v) }
+func SwapUint32(a *uint32, v uint32) uint32 { pto(a); return atomic.SwapUint32(a, v) }
+func AddUint32(a *uint32, d uint32) uint32  { pto(a); return atomic.AddUint32(a, d) }
 func CompareAndSwapUint32(a *uint32, o, n uint32) bool {
-	pt()
+	pto(a)
 	return atomic.CompareAndSwapUint32(a, o, n)
 }
 
 type Uint64 struct{ v atomic.Uint64 }
 
-func (x *Uint64) Load() uint64                    { pt(); return x.v.Load() }
-func (x *Uint64) Store(v uint64)                  { pt(); x.v.Store(v) }
-func (x *Uint64) Swap(v uint64) uint64            { pt(); return x.v.Swap(v) }
-func (x *Uint64) CompareAndSwap(o, n uint64) bool { pt(); return x.v.CompareAndSwap(o, n) }
-func (x *Uint64) Add(d uint64) uint64             { pt(); return x.v.Add(d) }
+func (x *Uint64) Load() uint64                    { pto(x); return x.v.Load() }
+func (x *Uint64) Store(v uint64)                  { pto(x); x.v.Store(v) }
+func (x *Uint64) Swap(v uint64) uint64            { pto(x); return x.v.Swap(v) }
+func (x *Uint64) CompareAndSwap(o, n uint64) bool { pto(x); return x.v.CompareAndSwap(o, n) }
+func (x *Uint64) Add(d uint64) uint64             { pto(x); return x.v.Add(d) }
 
-func LoadUint64(a *uint64) uint64           { pt(); return atomic.LoadUint64(a) }
-func StoreUint64(a *uint64, v uint64)       { pt(); atomic.StoreUint64(a, v) }
-func SwapUint64(a *uint64, v uint64) uint64 { pt(); return atomic.SwapUint64(a, v) }
-func AddUint64(a *uint64, d uint64) uint64  { pt(); return atomic.AddUint64(a, d) }
+func LoadUint64(a *uint64) uint64           { pto(a); return atomic.LoadUint64(a) }
+func StoreUint64(a *uint64, v uint64)       { pto(a); atomic.StoreUint64(a, v) }
+func SwapUint64(a *uint64, v uint64) uint64 { pto(a); return atomic.SwapUint64(a, v) }
+func AddUint64(a *uint64, d uint64) uint64  { pto(a); return atomic.AddUint64(a, d) }
 func CompareAndSwapUint64(a *uint64, o, n uint64) bool {
-	pt()
+	pto(a)
 	return atomic.CompareAndSwapUint64(a, o, n)
 }
 
 type Uintptr struct{ v atomic.Uintptr }
 
-func (x *Uintptr) Load() uintptr                    { pt(); return x.v.Load() }
-func (x *Uintptr) Store(v uintptr)                  { pt(); x.v.Store(v) }
-func (x *Uintptr) Swap(v uintptr) uintptr           { pt(); return x.v.Swap(v) }
-func (x *Uintptr) CompareAndSwap(o, n uintptr) bool { pt(); return x.v.CompareAndSwap(o, n) }
-func (x *Uintptr) Add(d uintptr) uintptr            { pt(); return x.v.Add(d) }
+func (x *Uintptr) Load() uintptr                    { pto(x); return x.v.Load() }
+func (x *Uintptr) Store(v uintptr)                  { pto(x); x.v.Store(v) }
+func (x *Uintptr) Swap(v uintptr) uintptr           { pto(x); return x.v.Swap(v) }
+func (x *Uintptr) CompareAndSwap(o, n uintptr) bool { pto(x); return x.v.CompareAndSwap(o, n) }
+func (x *Uintptr) Add(d uintptr) uintptr            { pto(x); return x.v.Add(d) }
 
-func LoadUintptr(a *uintptr) uintptr            { pt(); return atomic.LoadUintptr(a) }
-func StoreUintptr(a *uintptr, v uintptr)        { pt(); atomic.StoreUintptr(a, v) }
-func SwapUintptr(a *uintptr, v uintptr) uintptr { pt(); return atomic.SwapUintptr(a, v) }
-func AddUintptr(a *uintptr, d uintptr) uintptr  { pt(); return atomic.AddUintptr(a, d) }
+func LoadUintptr(a *uintptr) uintptr            { pto(a); return atomic.LoadUintptr(a) }
+func StoreUintptr(a *uintptr, v uintptr)        { pto(a); atomic.StoreUintptr(a, v) }
+func SwapUintptr(a *uintptr, v uintptr) uintptr { pto(a); return atomic.SwapUintptr(a, v) }
+func AddUintptr(a *uintptr, d uintptr) uintptr  { pto(a); return atomic.AddUintptr(a, d) }
 func CompareAndSwapUintptr(a *uintptr, o, n uintptr) bool {
-	pt()
+	pto(a)
 	return atomic.CompareAndSwapUintptr(a, o, n)
 }
